@@ -20,6 +20,10 @@ Strings:
         spelling is matched as one string token text.
   C14.concat       Parser.parse_primary on a run of k adjacent string tokens returns Const("".join of their values) with
         the line of the first; loop invariant on the real while loop (k unbounded).
+  C14.str.value    the string branch of the real Lexer.wrap under an arbitrary newline_sequence: the value is Python's value of the spelling
+        (newline_sequence rewrites line breaks of the template text only, never characters produced by escapes).
+  C14.const.roundtrip   table: number spellings (incl. overflowing floats) keep Python's value through code generation in every
+        constant position (call / keyword argument, set + .module, list item, dict value, operand, macro default).
 Bounded stand-ins (never reported as proved):
   C14.bounded.unescape   every body of length <= 4 (quick 3) over {a, e-acute, U+1F600, backslash, ', ", n, x, u, 0, 1,
         newline} in both quote styles that Python accepts as a short string literal: rendered by the real Environment vs
@@ -577,17 +581,34 @@ def is_short_string_literals(spelling):
     return all(t.string[0] in "'\"" and not t.string.startswith(("'''", '"""')) for t in strings)
 
 
-def check_string(spelling):
+_nl_envs = {}
+NEWLINE_SEQUENCES = ("\n", "\r\n", "\r")
+REDUCED_STR_ALPHABET = ["a", "\\", "'", '"', "n", "r", "x", "0", "1", "\n"]  # for the non-default newline sequences
+
+
+def nl_env(seq):
+    if seq not in _nl_envs:
+        _nl_envs[seq] = jinja2.Environment(cache_size=0, newline_sequence=seq)
+    return _nl_envs[seq]
+
+
+def check_string(spelling, newline_sequence="\n"):
+    """a string literal denotes Python's value of the spelling under EVERY newline_sequence: the setting rewrites line breaks of the
+    template text, never characters produced by escape sequences"""
     want = py_string(spelling)
     if want is None or not is_short_string_literals(spelling):
         return None
+    where = "" if newline_sequence == "\n" else f" under newline_sequence={newline_sequence!r}"
+    key = classify_string(spelling)
+    if newline_sequence != "\n" and "\\\n" in spelling and key.startswith("spelling:"):
+        key = "backslash-newline-under-newline_sequence"
     try:
-        got = env().from_string("{{ " + spelling + " }}").render()
+        got = nl_env(newline_sequence).from_string("{{ " + spelling + " }}").render()
     except Exception as ex:  # noqa
         got = f"<{type(ex).__name__}: {str(ex)[:80]}>"
-        return (classify_string(spelling), f"{{{{ {spelling} }}}} raised {got}; Python's value is {want!r}")
+        return (key, f"{{{{ {spelling} }}}} raised {got}{where}; Python's value is {want!r}")
     if got != want:
-        return (classify_string(spelling), f"{{{{ {spelling} }}}} renders {got!r}; Python's value is {want!r}")
+        return (key, f"{{{{ {spelling} }}}} renders {got!r}{where}; Python's value is {want!r}")
     return None
 
 
@@ -606,9 +627,9 @@ def classify_string(spelling):
     return "backslash-before-non-ascii" if hit else "spelling:" + spelling
 
 
-def string_spellings(maxlen):
+def string_spellings(maxlen, alphabet=None):
     for ln in range(0, maxlen + 1):
-        for tup in itertools.product(STR_ALPHABET, repeat=ln):
+        for tup in itertools.product(alphabet or STR_ALPHABET, repeat=ln):
             body = "".join(tup)
             yield "'" + body + "'"
             yield '"' + body + '"'
@@ -619,29 +640,28 @@ def bounded_unescape(shard):
         t0 = time.time()
         maxlen = 3 if tier == "quick" else 4
         n, acc, seen, out = 0, 0, set(), []
-        for k, sp in enumerate(string_spellings(maxlen)):
-            if k % STR_SHARDS != shard:
-                continue
-            n += 1
-            if py_string(sp) is None:
-                continue
-            acc += 1
-            bad = check_string(sp)
-            if py_string(sp) is not None and not is_short_string_literals(sp):
-                acc -= 1
-            if bad and bad[0] not in seen and len(out) < 6:
-                seen.add(bad[0])
-                out.append(Res("C14.bounded.unescape", "refuted", "native", time.time() - t0, bad[1], "bounded", {"spelling": sp, "key": bad[0]}))
+        for seq in NEWLINE_SEQUENCES:
+            for k, sp in enumerate(string_spellings(maxlen, None if seq == "\n" else REDUCED_STR_ALPHABET)):
+                if k % STR_SHARDS != shard:
+                    continue
+                n += 1
+                if py_string(sp) is None or not is_short_string_literals(sp):
+                    continue
+                acc += 1
+                bad = check_string(sp, seq)
+                if bad and bad[0] not in seen and len(out) < 6:
+                    seen.add(bad[0])
+                    out.append(Res("C14.bounded.unescape", "refuted", "native", time.time() - t0, bad[1], "bounded", {"spelling": sp, "key": bad[0], "newline_sequence": seq}))
         task.stats = {"spellings": n, "accepted_by_python": acc}
         if not out:
             out.append(Res(f"C14.bounded.unescape[{shard}]", "bounded-ok", "native", time.time() - t0,
-                           f"{acc} of {n} spellings are Python short string literals; all render as Python's value", "bounded"))
+                           f"{acc} of {n} (spelling, newline_sequence) cases are Python short string literals; all render as Python's value", "bounded"))
         return out
     return run
 
 
 def replay_string(w):
-    r = check_string(w["spelling"])
+    r = check_string(w["spelling"], w.get("newline_sequence", "\n"))
     return (r is not None, r[1] if r else f"{w['spelling']!r}: rendered value equals Python's")
 
 
@@ -708,6 +728,9 @@ class NumValue(WitnessAlways, VC):
     def default_witness(self):
         return {"token": self.tok, "value_str": None}
 
+    def self_fields(self, st):
+        return {}
+
     def candidate_constraint(self, cand):
         return self.value_str.t == z3.StringVal(cand)
 
@@ -761,7 +784,7 @@ class NumValue(WitnessAlways, VC):
         self.value_str = sym("value_str", "str")
         self.lineno = sym("lineno", "int")
         params = [a.arg for a in node.args.args]
-        loc = {params[0]: A.obj(st, L.Lexer, "self"), params[1]: sym("stream", "obj")}
+        loc = {params[0]: A.obj(st, L.Lexer, "self", fields=self.self_fields(st)), params[1]: sym("stream", "obj")}
         for p in params[2:]:
             loc[p] = sym(p, "obj")
         loc.update({n_line: self.lineno, n_tok: self.tok, n_val: self.value_str})
@@ -844,6 +867,130 @@ def replay_num_value(w):
         if len(toks) != 1 or toks[0].lineno != 7 or toks[0].type != tok or pv is None or not same_value(toks[0].value, pv[1]):
             return (True, f"Lexer.wrap turns the {tok} token {s!r} into {[(t.lineno, t.type, t.value) for t in toks]!r}; Python's value is {pv!r}")
     return (False, "Lexer.wrap agrees with Python on the candidate spellings")
+
+
+
+# ---- string branch ------------------------------------------------------------------------------
+
+NORMF = z3.Function("Lexer._normalize_newlines", S_, S_, S_)      # (newline_sequence, text) -> text with its line breaks replaced
+ENC = z3.Function("str.encode(ascii,backslashreplace)", S_, _Obj)
+DEC = z3.Function("bytes.decode(unicode-escape)", _Obj, S_)
+PYSTR = z3.Function("python_value_of_string_literal", S_, S_)     # the value Python assigns to the quoted spelling
+
+
+def no_line_break(t):
+    return z3.And(z3.Not(z3.Contains(t, z3.StringVal("\n"))), z3.Not(z3.Contains(t, z3.StringVal("\r"))))
+
+
+class StrValue(NumValue):
+    """One generic iteration of the real Lexer.wrap loop body for a string token whose text contains no raw line break, under an
+    ARBITRARY newline_sequence: the Token's value is Python's value of the spelling - in particular independent of
+    newline_sequence (the setting may only rewrite line breaks of the template text, never characters produced by escapes).
+    Dependencies: _normalize_newlines(text) is text when text has no line break; decoding the ascii/backslashreplace encoding of the
+    text between the quotes with unicode-escape gives Python's value of the literal (bounded stand-in C14.bounded.unescape; F13)."""
+
+    def __init__(self):
+        self.tok = L.TOKEN_STRING
+        VC.__init__(self, PROP, "C14.str.value[string]")
+        self.candidates = ({"value_str": "'a\\nb'", "newline_sequence": "\r\n"}, {"value_str": '"\\r"', "newline_sequence": "\r\n"},
+                           {"value_str": "'\\x0a'", "newline_sequence": "\r"}, {"value_str": "'ab'", "newline_sequence": "\n"})
+
+    def self_fields(self, st):
+        self.nlseq = sym("newline_sequence", "str")
+        st.assume(z3.Or(*[self.nlseq.t == z3.StringVal(x) for x in ("\n", "\r\n", "\r")]))
+        return {"newline_sequence": self.nlseq, "keep_trailing_newline": sym("keep_trailing_newline", "bool"), "lstrip_blocks": sym("lstrip_blocks", "bool")}
+
+    def configure(self, I):
+        NumValue.configure(self, I)
+        c = self
+
+        def normalize(I_, st, args, kwargs, node):
+            text = to_term(args[1], "str")
+            r = Sym(NORMF(c.nlseq.t, text), "str")
+            st.assume(z3.Implies(no_line_break(text), r.t == text))  # dependency: nothing to replace in a text without line breaks
+            st.trace.append(Event("call", "_normalize_newlines", [args[1]], {}, r))
+            return [(st, r)]
+
+        I.specs["Lexer._normalize_newlines"] = normalize
+
+        def str_encode(I_, st, args, kwargs, node):
+            if list(args[1:]) != ["ascii", "backslashreplace"] or kwargs:
+                raise Unsupported("str.encode with other arguments than ('ascii', 'backslashreplace')", node)
+            return [(st, Sym(ENC(to_term(args[0], "str")), "obj", tags={"encoded"}))]
+
+        I.specs["str.encode"] = str_encode
+
+        def method_obj(I_, st, args, kwargs, node):
+            o, name = args[0], args[1]
+            if name == "decode" and "encoded" in o.tags:
+                if list(args[2:]) != ["unicode-escape"]:
+                    raise Unsupported("bytes.decode with another codec", node)
+                return [(st, Sym(DEC(o.t), "str"))]
+            return None
+
+        I.specs["method_obj"] = method_obj
+
+        def getattr_obj(I_, st, args, kwargs, node):
+            o, name = args
+            if name == "decode" and "encoded" in o.tags:
+                return [(st, BoundMethod(o, name))]
+            return None
+
+        I.specs["getattr_obj"] = getattr_obj
+
+    def p_token(self, pre, out):
+        if out.raised:
+            return None
+        ys = out.st.yields
+        if len(ys) != 1 or not isinstance(ys[0], Ref):
+            return False
+        f = out.st.get(ys[0]).fields
+        if f.get("lineno") is not self.lineno or f.get("type") != self.tok:
+            return False
+        v = f.get("value")
+        if not (isinstance(v, Sym) and v.k == "str"):
+            return False
+        vs = self.value_str.t
+        body = z3.SubString(vs, 1, z3.Length(vs) - 2)
+        requires = z3.And(z3.Length(vs) >= 2, no_line_break(vs))
+        # string lemma (valid): a character of a substring is a character of the string
+        lemma = z3.And(*[z3.Implies(z3.Contains(body, z3.StringVal(ch)), z3.Contains(vs, z3.StringVal(ch))) for ch in ("\n", "\r")])
+        dep = DEC(ENC(body)) == PYSTR(vs)
+        return z3.Implies(z3.And(requires, lemma, dep), v.t == PYSTR(vs))
+
+    posts = [("wrap_itself_raises_nothing", NumValue.p_no_raise), ("token_value_is_python_value_whatever_the_newline_sequence", p_token)]
+
+    def default_witness(self):
+        return {"token": self.tok, "value_str": None}
+
+    def candidate_constraint(self, cand):
+        return z3.And(self.value_str.t == z3.StringVal(cand["value_str"]), self.nlseq.t == z3.StringVal(cand["newline_sequence"]))
+
+    def concretize(self, model, pre, out):
+        v, q = model_value(model, self.value_str.t), model_value(model, self.nlseq.t)
+        return {"token": self.tok, "value_str": v if isinstance(v, str) else None, "newline_sequence": q if isinstance(q, str) else None}
+
+    def replay(self, w):
+        return replay_str_value(w)
+
+
+def replay_str_value(w):
+    """native: the real Lexer.wrap on one string token under each newline_sequence, against Python's value of the spelling"""
+    cands = [w["value_str"]] if isinstance(w.get("value_str"), str) else []
+    cands += ["'a\\nb'", '"\\r"', "'\\x0a\\x0d'", "'\\012'", "'ab'", '"q\\tq"', "'\\\\n'"]
+    for seq in NEWLINE_SEQUENCES:
+        lx = jinja2.Environment(newline_sequence=seq).lexer
+        for s in cands:
+            want = py_string(s)
+            if want is None or "\n" in s or "\r" in s or not s.isascii() or L.string_re.fullmatch(s) is None:
+                continue
+            try:
+                toks = list(lx.wrap(iter([(3, L.TOKEN_STRING, s)])))
+            except Exception as ex:  # noqa
+                return (True, f"Lexer.wrap on the string token {s!r} under newline_sequence={seq!r} raised {type(ex).__name__}: {ex}")
+            if len(toks) != 1 or toks[0].lineno != 3 or toks[0].type != L.TOKEN_STRING or toks[0].value != want:
+                return (True, f"Lexer.wrap turns the string token {s!r} under newline_sequence={seq!r} into {[(t.lineno, t.type, t.value) for t in toks]!r}; Python's value is {want!r}")
+    return (False, "Lexer.wrap agrees with Python on the candidate string spellings under all three newline sequences")
 
 
 
@@ -1025,6 +1172,86 @@ def replay_concat(w):
 
 
 
+# ====================================================================================================
+# C14.const.roundtrip: the literal's value survives code generation (render time)
+# ====================================================================================================
+
+ROUNDTRIP_SPELLINGS = ["0", "7", "1_000", "0x_fF", "0b1_01", "0o17", "00", "123456789012345678901234567890", "9" * 60,
+                       "1.5", "0.1", "1_0.2_5", "1e5", "1E-7", "2.5e+3", "1.7976931348623157e308", "5e-324", "1e-400", "0.0", "0e0",
+                       "1e309", "1e999", "9_9.9e9_99", "1.0e400", "123456789.0e300"]
+
+
+def _same(a, b):
+    return type(a) is type(b) and (repr(a) == repr(b) if isinstance(a, float) else a == b)
+
+
+def roundtrip_contexts(spelling):
+    """the value a literal has at render time in the positions where the compiler writes it as a constant of the generated module:
+    a call argument, the value of {% set %} (read back through .module), a list item, a dict value, an operand, a macro default"""
+    e = jinja2.Environment(cache_size=0)
+    seen = []
+    e.globals["probe"] = lambda v: (seen.append(v), "")[1]
+    out = {}
+
+    def run(label, src, getter):
+        del seen[:]
+        try:
+            t = e.from_string(src)
+            out[label] = ("ok", getter(t))
+        except Exception as ex:  # noqa
+            out[label] = ("raise", f"{type(ex).__name__}: {ex}")
+
+    run("call argument", "{{ probe(%s) }}" % spelling, lambda t: (t.render(), seen[0])[1])
+    run("keyword argument", "{{ probe(v=%s) }}" % spelling, lambda t: (t.render(), seen[0])[1])
+    run("set + module", "{%% set v = %s %%}" % spelling, lambda t: t.module.v)
+    run("list item", "{%% set v = [%s, 1] %%}" % spelling, lambda t: t.module.v[0])
+    run("dict value", "{%% set v = {'k': %s} %%}" % spelling, lambda t: t.module.v["k"])
+    run("operand", "{{ probe(%s if flag else 0) }}" % spelling, lambda t: (t.render(flag=True), seen[0])[1])
+    run("macro default", "{%% macro m(a=%s) %%}{{ probe(a) }}{%% endmacro %%}{{ m() }}" % spelling, lambda t: (t.render(), seen[0])[1])
+    return out
+
+
+def check_roundtrip(spelling):
+    pv = py_value(spelling)
+    if pv is None:
+        return [f"SPEC: {spelling!r} is not a Python number literal"]
+    bad = []
+    for label, (st_, v) in roundtrip_contexts(spelling).items():
+        if st_ != "ok":
+            bad.append(f"{spelling} as {label}: {v}; Python's value is {pv[1]!r}")
+        elif not _same(v, pv[1]):
+            bad.append(f"{spelling} as {label}: value at render time {v!r}; Python's value is {pv[1]!r}")
+    return bad
+
+
+def const_roundtrip(task, tier, seed):
+    t0 = time.time()
+    out = []
+    for sp in ROUNDTRIP_SPELLINGS:
+        bad = check_roundtrip(sp)
+        name = f"C14.const.roundtrip[{sp if len(sp) < 24 else sp[:10] + '..' + str(len(sp)) + 'chars'}]"
+        out.append(Res(name, "refuted" if bad else "discharged", "table", time.time() - t0, "; ".join(bad[:2]) if bad else
+                       f"{sp[:30]} keeps Python's value as call / keyword argument, set value, list item, dict value, operand and macro default", "table",
+                       {"spelling": sp} if bad else None))
+    # the value-level obligation of C08 (text written by the real visit_Const evaluates back to the value), when that module is importable
+    try:
+        from contracts.c08 import roundtrip_case
+        for sp in ROUNDTRIP_SPELLINGS:
+            pv = py_value(sp)
+            ok, key, detail = roundtrip_case(sp, pv[1])
+            out.append(Res(f"C14.const.roundtrip.visit_Const[{sp if len(sp) < 24 else sp[:10] + '..'}]", "discharged" if ok else "refuted", "table", time.time() - t0,
+                           detail or "the text written by visit_Const evaluates back to the value", "table", None if ok else {"spelling": sp}))
+    except ImportError:
+        pass
+    return out
+
+
+def replay_const_roundtrip(w):
+    bad = check_roundtrip(w["spelling"])
+    return (bool(bad), "; ".join(bad[:2]) or f"{w['spelling']}: value kept in every position")
+
+
+
 def bounded_tasks():
     ts = []
     for k in range(NUM_SHARDS):
@@ -1036,7 +1263,8 @@ def bounded_tasks():
     for k in range(STR_SHARDS):
         t = FnTask(PROP, f"C14.bounded.unescape[{k}]", bounded_unescape(k), kind="bounded", replay_fn=replay_string)
         t.bound_text = (f"every body of length <= 4 (quick tier: <= 3) over {{a, é, U+1F600, \\, ', \", n, x, u, 0, 1, newline}} in both quote styles "
-                        f"(shard {k} of {STR_SHARDS}) that Python accepts as short string literal(s): real Environment render vs ast value")
+                        f"(shard {k} of {STR_SHARDS}) that Python accepts as short string literal(s): real Environment render vs ast value; "
+                        "repeated under newline_sequence '\\r\\n' and '\\r' over the reduced alphabet {{a, \\, ', \", n, r, x, 0, 1, newline}}")
         t.finding_key = numbers_key
         ts.append(t)
     return ts
@@ -1048,7 +1276,8 @@ TASKS = [
     FnTask(PROP, "C14.str.lang", str_lang, kind="regex", replay_fn=replay_str_lang),
     FnTask(PROP, "C14.lex.longest", lex_longest, kind="regex", replay_fn=replay_lang),
     FnTask(PROP, "C14.pygrammar", pygrammar, kind="table"),
-    NumValue(L.TOKEN_INTEGER), NumValue(L.TOKEN_FLOAT), Concat(),
+    FnTask(PROP, "C14.const.roundtrip", const_roundtrip, kind="table", replay_fn=replay_const_roundtrip),
+    NumValue(L.TOKEN_INTEGER), NumValue(L.TOKEN_FLOAT), StrValue(), Concat(),
 ] + bounded_tasks()
 
 META = {
@@ -1075,7 +1304,9 @@ META = {
         "L(float literal) ast.literal_eval(s.replace('_','')), is the value Python assigns to s (checked exhaustively up to length 5 by C14.bounded.numbers)",
         "dependency contract: ''.join(list of str) is the concatenation of the elements in order",
         "integers longer than sys.get_int_max_str_digits() raise ValueError in int() (resource clause, owned by C01.wrap.raises)",
-        "C14.const.roundtrip (the value survives code generation) is owned by C08 / C01-W5 (DESIGN F9); here it is only observed by the stand-ins",
+        "C14.const.roundtrip: table over number spellings (incl. overflowing floats, big integers) in the positions where the compiler writes a constant "
+        "(call / keyword argument, set value via .module, list item, dict value, operand, macro default) plus C08's visit_Const text round trip when importable; "
+        "the general claim for every constant is owned by C08",
     ],
     "trusted_base": [
         "z3 regular-expression theory (inclusion as unsatisfiability of membership / non-membership)", "pyvc symbolic executor",
